@@ -1,6 +1,8 @@
 package rt
 
 import (
+	"verif/unit"
+
 	"crypto/sha256"
 	"encoding/binary"
 	"encoding/json"
@@ -19,6 +21,7 @@ var Scenarios = map[string]func(seed int64, idx int) *Result{
 	"hostile": func(s int64, i int) *Result { return RunStress(s, i, true) },
 	"sync":    RunSync,
 	"flood":   RunFlood,
+	"timer":   RunTimer,
 	"ctx":     RunCtx,
 }
 
@@ -39,4 +42,14 @@ func ChildMain(scenario string, seed int64, from, to int) int {
 	}
 	fmt.Println("RTDONE")
 	return 0
+}
+
+// RunTimer: the timer component scripts of C19 under the race detector.
+func RunTimer(seed int64, idx int) *Result {
+	viol, recv, judged, left := unit.TimerScripts(seed, 40)
+	r := &Result{Scenario: "timer", Case: idx, Seed: seed, Stats: map[string]int{"C19 timer scripts": 40, "C19 triggers received": recv, "C19 triggers judged": judged, "C19 timer goroutines left": left}, Desc: "40 Register/Stop/read scripts on the real TimerBasedElectionTrigger (2 ms base)"}
+	for _, v := range viol {
+		r.Viol = append(r.Viol, Violation{"C19", v[0], v[1]})
+	}
+	return r
 }
